@@ -12,6 +12,10 @@ import (
 
 // TypePriority calculates the supplied type's priority used for sorting
 func TypePriority(rr dns.RR) uint32 {
+	if !hasOrderTag(rr) {
+		// Too short to carry its order tag: sorts last and is skipped when unwrapping
+		return 90000
+	}
 	switch v := rr.(type) {
 	case *dns.NULL:
 		// first two bytes represent the order
@@ -399,6 +403,10 @@ func UnwrapDnsResponse(q *dns.Msg, domain string) []byte {
 	})
 
 	for _, rr := range answers {
+		if !hasOrderTag(rr) {
+			// Not a record this tunnel could have produced
+			continue
+		}
 		switch v := rr.(type) {
 		case *dns.NULL:
 			// Remove first two bytes
@@ -409,17 +417,26 @@ func UnwrapDnsResponse(q *dns.Msg, domain string) []byte {
 		case *dns.TXT:
 			resp = append(resp, []byte(strings.Join(v.Txt, "")[2:])...)
 		case *dns.MX:
-			data := v.Mx                             // Nothing to remove, Preference takes care of it
+			data := v.Mx // Nothing to remove, Preference takes care of it
+			if len(data) < len(domain)+2 {
+				continue // target is not a name under the tunnel domain
+			}
 			data = data[0 : len(data)-len(domain)-2] // remove domain
 			data = Undotify(data)                    // Remove dots
 			resp = append(resp, data...)
 		case *dns.SRV:
-			data := v.Target                         // Nothing to remove, Priority takes care of it
+			data := v.Target // Nothing to remove, Priority takes care of it
+			if len(data) < len(domain)+2 {
+				continue // target is not a name under the tunnel domain
+			}
 			data = data[0 : len(data)-len(domain)-2] // remove domain
 			data = Undotify(data)                    // Remove dots
 			resp = append(resp, data...)
 		case *dns.CNAME:
-			data := v.Target[2:]                     // Remove first two characters
+			data := v.Target[2:] // Remove first two characters
+			if len(data) < len(domain)+2 {
+				continue // target is not a name under the tunnel domain
+			}
 			data = data[0 : len(data)-len(domain)-2] // remove domain
 			data = Undotify(data)                    // Remove dots
 			resp = append(resp, data...)
@@ -433,4 +450,25 @@ func UnwrapDnsResponse(q *dns.Msg, domain string) []byte {
 	}
 
 	return resp
+}
+
+// hasOrderTag tells if the record is long enough to carry the order tag that WrapDnsResponse
+// puts in front of every record of its type. Answers come from the network: they can be
+// empty, truncated or of a type this tunnel never produces.
+func hasOrderTag(rr dns.RR) bool {
+	switch v := rr.(type) {
+	case *dns.NULL:
+		return len(v.Data) >= 2
+	case *dns.PrivateRR:
+		return v.Data != nil && len(v.Data.String()) >= 2
+	case *dns.TXT:
+		return len(v.Txt) > 0 && len(v.Txt[0]) >= 2
+	case *dns.CNAME:
+		return len(v.Target) >= 2
+	case *dns.AAAA:
+		return len(v.AAAA) >= 2
+	case *dns.A:
+		return len(v.A) >= 1
+	}
+	return true
 }
